@@ -47,6 +47,10 @@ type Case struct {
 	TaskID   uint32   `json:"task_id"`
 	Up       string   `json:"up"`        // upward scenario: ok | not-outstanding | parent-outstanding-only | parent-key | to-side
 	UpMarker string   `json:"up_marker"`
+	// after the first round: chain agent number Relink (1..depth; 0 = none) reconnects under a new,
+	// directly connected agent NewRoot, and another task is issued for the last agent
+	Relink  int    `json:"relink,omitempty"`
+	NewRoot uint32 `json:"new_root,omitempty"`
 }
 
 func keyFrom(seed byte) ([]byte, []byte) {
@@ -88,6 +92,15 @@ func gen(t *rapid.T) Case {
 	c.TaskID = rapid.Uint32Range(1, 0xffffffff).Draw(t, "task")
 	c.Up = rapid.SampledFrom([]string{"ok", "ok", "not-outstanding", "parent-outstanding-only", "parent-key", "to-side"}).Draw(t, "up")
 	c.UpMarker = "UPMARK" + rapid.StringMatching(`[a-z]{6}`).Draw(t, "upm")
+	if rapid.IntRange(0, 2).Draw(t, "relink?") > 0 {
+		c.Relink = rapid.IntRange(1, depth).Draw(t, "relink")
+		for {
+			c.NewRoot = idg.Draw(t, "newroot")
+			if !seen[c.NewRoot] && c.NewRoot != c.SideID {
+				break
+			}
+		}
+	}
 	return c
 }
 
@@ -119,6 +132,56 @@ func consoleTexts(evs []packager.Package) map[string][]string {
 		out[id] = append(out[id], m["Message"]+"\n"+m["Output"])
 	}
 	return out
+}
+
+// unwrap reads the tasks of the first hop's reply the way the hops do: each hop decrypts its
+// layer with its own key, finds the next hop's id and a pipe frame, and passes the frame on.
+func unwrap(chain []sess, top []demonref.Task, tag string) ([]demonref.Task, *core.Violation) {
+	depth := len(chain) - 1
+	var delivered []demonref.Task
+	if depth == 0 {
+		delivered = top
+	}
+	for ti, t := range top {
+		cur := t
+		for hop := 0; hop < depth; hop++ {
+			next := chain[hop+1]
+			if cur.Cmd != demonref.CmdPivot {
+				return nil, core.V(fmt.Sprintf("down|not-a-pivot-task|hop%d|%s", hop, tag), "task %d at hop %d is command %d, expected COMMAND_PIVOT", ti, hop, cur.Cmd)
+			}
+			d := &demonref.Dec{B: cur.Body} // Command.c:2559-2563 DemonId = GetInt32, Data = GetBytes (after sub-command)
+			sub := d.Int32()
+			did := d.Int32()
+			frame := d.Bytes()
+			if d.Err || sub != demonref.PivotSmbCmd {
+				return nil, core.V(fmt.Sprintf("down|layer-malformed|hop%d|%s", hop, tag), "hop %d: decrypting the layer with hop key gives sub-command %d (want 12), err=%v", hop, sub, d.Err)
+			}
+			if did != next.ID {
+				return nil, core.V(fmt.Sprintf("down|next-hop-id|hop%d|%s", hop, tag), "hop %d: layer names demon %08x, next hop is %08x", hop, did, next.ID)
+			}
+			// TransportSmb.c SmbRecv: [DemonId][PackageSize][payload], id must be the reader's own
+			if len(frame) < 8 {
+				return nil, core.V(fmt.Sprintf("down|frame-short|hop%d|%s", hop, tag), "hop %d: pipe frame has %d bytes", hop, len(frame))
+			}
+			fid := binary.LittleEndian.Uint32(frame[0:4])
+			fsz := binary.LittleEndian.Uint32(frame[4:8])
+			if fid != next.ID {
+				return nil, core.V(fmt.Sprintf("down|frame-id|hop%d|%s", hop, tag), "hop %d: pipe frame carries id %08x, the reading demon is %08x (SmbRecv would drop the connection)", hop, fid, next.ID)
+			}
+			if int(fsz) != len(frame)-8 {
+				return nil, core.V(fmt.Sprintf("down|frame-size|hop%d|%s", hop, tag), "hop %d: pipe frame says %d payload bytes, carries %d", hop, fsz, len(frame)-8)
+			}
+			inner, ok := demonref.ReadTasks(frame[8:], next.Key, next.IV, 0, "")
+			if !ok || len(inner) != 1 {
+				return nil, core.V(fmt.Sprintf("down|inner-framing|hop%d|%s", hop, tag), "hop %d: payload for %08x is not exactly one task under its key (%d tasks, clean=%v)", hop, next.ID, len(inner), ok)
+			}
+			cur = inner[0]
+		}
+		if depth > 0 {
+			delivered = append(delivered, cur)
+		}
+	}
+	return delivered, nil
 }
 
 func check(c Case) *core.Violation {
@@ -196,48 +259,9 @@ func check(c Case) *core.Violation {
 	if !ok {
 		return core.V("down|framing|hop0|"+tag, "first hop reply is not a clean task sequence")
 	}
-	var delivered []demonref.Task
-	if depth == 0 {
-		delivered = top
-	}
-	for ti, t := range top {
-		cur := t
-		for hop := 0; hop < depth; hop++ {
-			next := chain[hop+1]
-			if cur.Cmd != demonref.CmdPivot {
-				return core.V(fmt.Sprintf("down|not-a-pivot-task|hop%d|%s", hop, tag), "task %d at hop %d is command %d, expected COMMAND_PIVOT", ti, hop, cur.Cmd)
-			}
-			d := &demonref.Dec{B: cur.Body} // Command.c:2559-2563 DemonId = GetInt32, Data = GetBytes (after sub-command)
-			sub := d.Int32()
-			did := d.Int32()
-			frame := d.Bytes()
-			if d.Err || sub != demonref.PivotSmbCmd {
-				return core.V(fmt.Sprintf("down|layer-malformed|hop%d|%s", hop, tag), "hop %d: decrypting the layer with hop key gives sub-command %d (want 12), err=%v", hop, sub, d.Err)
-			}
-			if did != next.ID {
-				return core.V(fmt.Sprintf("down|next-hop-id|hop%d|%s", hop, tag), "hop %d: layer names demon %08x, next hop is %08x", hop, did, next.ID)
-			}
-			// TransportSmb.c SmbRecv: [DemonId][PackageSize][payload], id must be the reader's own
-			if len(frame) < 8 {
-				return core.V(fmt.Sprintf("down|frame-short|hop%d|%s", hop, tag), "hop %d: pipe frame has %d bytes", hop, len(frame))
-			}
-			fid := binary.LittleEndian.Uint32(frame[0:4])
-			fsz := binary.LittleEndian.Uint32(frame[4:8])
-			if fid != next.ID {
-				return core.V(fmt.Sprintf("down|frame-id|hop%d|%s", hop, tag), "hop %d: pipe frame carries id %08x, the reading demon is %08x (SmbRecv would drop the connection)", hop, fid, next.ID)
-			}
-			if int(fsz) != len(frame)-8 {
-				return core.V(fmt.Sprintf("down|frame-size|hop%d|%s", hop, tag), "hop %d: pipe frame says %d payload bytes, carries %d", hop, fsz, len(frame)-8)
-			}
-			inner, ok := demonref.ReadTasks(frame[8:], next.Key, next.IV, 0, "")
-			if !ok || len(inner) != 1 {
-				return core.V(fmt.Sprintf("down|inner-framing|hop%d|%s", hop, tag), "hop %d: payload for %08x is not exactly one task under its key (%d tasks, clean=%v)", hop, next.ID, len(inner), ok)
-			}
-			cur = inner[0]
-		}
-		if depth > 0 {
-			delivered = append(delivered, cur)
-		}
+	delivered, v := unwrap(chain, top, tag)
+	if v != nil {
+		return v
 	}
 	if len(delivered) != 2 {
 		return core.V("down|task-count|"+tag, "%d tasks reached the target, 2 were issued", len(delivered))
@@ -257,6 +281,14 @@ func check(c Case) *core.Violation {
 		return core.V("down|task1-args|"+tag, "fs task under the target's key reads sub %d path %q, operator sent cd %q", sub, p, c.Path)
 	}
 
+	if v := upward(c, w, chain, side, target, reqCd, tag); v != nil {
+		return v
+	}
+	return relink(c, w, chain, tag)
+}
+
+func upward(c Case, w *agx.World, chain []sess, side, target sess, reqCd uint32, tag string) *core.Violation {
+	depth := len(chain) - 1
 	// ---------------------------------------------------------------- upward
 	// the target answers the fs/cd task: COMMAND_FS / cd / WString(path) (Command.c:952ff)
 	from := len(w.TS.EventsList)
@@ -295,7 +327,7 @@ func check(c Case) *core.Violation {
 		expectEffect = false
 	}
 	pkg := demonref.Batch(sender.ID, 0, []demonref.Sub{{Cmd: agent.COMMAND_FS, ReqID: req, Body: cbBody}}, encKey, encIV)
-	code, _ = w.Post(wrapUp(chain, depth, pkg))
+	code, _ := w.Post(wrapUp(chain, depth, pkg))
 	if code != 200 {
 		return core.V("up|status|"+c.Up, "relayed callback answered %d", code)
 	}
@@ -317,6 +349,72 @@ func check(c Case) *core.Violation {
 		}
 	} else if hit != "" {
 		return core.V("up|accepted|"+c.Up+"|"+tag, "scenario %s: the relayed callback had an effect (console output on session %s)", c.Up, hit)
+	}
+	return nil
+}
+
+// relink: an agent in the middle of the chain reconnects under another directly connected agent
+// (the new parent reports SMB_CONNECT with the child's registration package, as on first connect).
+// From then on the chain's first hop is the new agent: the next task for the last agent must be
+// found there, wrapped for the new chain, and not at the old first hop.
+func relink(c Case, w *agx.World, chain []sess, tag string) *core.Violation {
+	depth := len(chain) - 1
+	if c.Relink <= 0 || c.Relink > depth {
+		return nil
+	}
+	tag = fmt.Sprintf("%s|relinked=%d", tag, c.Relink)
+	k, iv := keyFrom(0xdd)
+	r2 := sess{ID: c.NewRoot, Key: k, IV: iv, Meta: agx.DefaultMeta(c.NewRoot)}
+	if code, _ := w.Register(r2); code != 200 {
+		return core.V("setup|register-refused", "registration of the new first hop refused: %d", code)
+	}
+	moved := chain[c.Relink]
+	init := moved.Meta.InitPackage(moved.ID, moved.Key, moved.IV)
+	body := (&demonref.Enc{}).Int32(demonref.PivotSmbCon).Int32(1).Bytes(init).B
+	code, _ := w.Post(demonref.Batch(r2.ID, 0, []demonref.Sub{{Cmd: demonref.CmdPivot, ReqID: 0, Body: body}}, r2.Key, r2.IV))
+	if code != 200 {
+		return core.V("setup|smb-connect-status", "SMB_CONNECT (reconnect) of %08x under %08x answered %d", moved.ID, r2.ID, code)
+	}
+	a := w.Agent(moved.ID)
+	if a == nil || a.Pivots.Parent == nil || a.Pivots.Parent.NameID != r2.NameID() {
+		return core.V("relink|wrong-parent|"+tag, "after reconnecting under %s the parent of %08x is %v", r2.NameID(), moved.ID, a.Pivots.Parent)
+	}
+	nchain := append([]sess{r2}, chain[c.Relink:]...)
+	// whatever the connects left queued is not looked at
+	w.Checkin(chain[0], nil)
+	w.Checkin(r2, nil)
+	target := chain[depth]
+	req := c.TaskID ^ 0x02020202
+	w.Input("op", map[string]interface{}{"DemonID": target.NameID(), "CommandID": "11", "TaskID": fmt.Sprintf("%08x", req), "CommandLine": "sleep", "Arguments": fmt.Sprintf("%d;%d", c.Jitter, c.Delay%101)})
+	code, resp := w.Post(demonref.Batch(r2.ID, 0, nil, r2.Key, r2.IV))
+	if code != 200 {
+		return core.V("down|checkin-status", "new first hop check-in answered %d", code)
+	}
+	top, ok := demonref.ReadTasks(resp, r2.Key, r2.IV, 0, "")
+	if !ok {
+		return core.V("down|framing|hop0|"+tag, "new first hop reply is not a clean task sequence")
+	}
+	_, old, _, _ := w.Checkin(chain[0], nil)
+	if len(top) == 1 && top[0].Cmd == demonref.CmdNoJob {
+		where := "nowhere"
+		if !(len(old) == 1 && old[0].Cmd == demonref.CmdNoJob) {
+			where = fmt.Sprintf("at the old first hop %08x (%d task(s))", chain[0].ID, len(old))
+		}
+		return core.V("down|after-relink|not-at-the-new-first-hop|"+tag, "%08x reconnected under %08x; a task for %08x (below it) is not handed to %08x at its check-in: it is %s", moved.ID, r2.ID, target.ID, r2.ID, where)
+	}
+	delivered, v := unwrap(nchain, top, tag)
+	if v != nil {
+		return v
+	}
+	if len(delivered) != 1 || delivered[0].Cmd != 11 || delivered[0].ReqID != req {
+		return core.V("down|after-relink|task|"+tag, "after the reconnect %d task(s) reached the target (first: cmd %d req %08x), issued one sleep req %08x", len(delivered), delivered[0].Cmd, delivered[0].ReqID, req)
+	}
+	d := &demonref.Dec{B: delivered[0].Body}
+	if a, b := d.Int32(), d.Int32(); a != c.Jitter || b != c.Delay%101 || d.Err {
+		return core.V("down|after-relink|args|"+tag, "sleep task under the target's key reads %d;%d, operator sent %d;%d", a, b, c.Jitter, c.Delay%101)
+	}
+	if !(len(old) == 1 && old[0].Cmd == demonref.CmdNoJob) {
+		return core.V("down|after-relink|also-at-the-old-first-hop|"+tag, "the old first hop %08x is still handed %d task(s) for the moved subtree", chain[0].ID, len(old))
 	}
 	return nil
 }
@@ -344,6 +442,14 @@ func classify(c Case) core.Class {
 		cl.Fingerprint += "|t=maxint32"
 	}
 	cl.Labels = []string{fmt.Sprintf("depth:%d", depth), "up:" + c.Up}
+	if c.Relink > 0 {
+		pos := "target-itself"
+		if c.Relink < depth {
+			pos = "ancestor-of-target"
+		}
+		cl.Labels = append(cl.Labels, "relink:"+pos)
+		cl.Fingerprint += "|relink=" + pos
+	}
 	if big {
 		cl.Labels = append(cl.Labels, "id>=2^31")
 	}
@@ -353,7 +459,7 @@ func classify(c Case) core.Class {
 func TestC08(t *testing.T) {
 	core.Run(t, core.Spec[Case]{
 		Property: "C08", Sub: "a",
-		Rule: "pivot chains of depth 1-5 (optional sibling of the target) built through real, relayed SMB_CONNECT callbacks; ids from {1,2,2^31-1,2^31,2^32-1,random}, distinct keys; two operator tasks (sleep, fs/cd) for the last agent are unwrapped from the first hop's check-in reply layer by layer with each hop's own key and SmbRecv's frame rules; then a callback of the last agent is wrapped once per ancestor in scenarios ok / id never issued / id outstanding only for the parent / encrypted under the parent's key / sent by the sibling with the target's id. Non-trivial: depth >= 2 or an id >= 2^31; distinct = (depth, big id, sibling, scenario)",
+		Rule: "pivot chains of depth 1-5 (optional sibling of the target) built through real, relayed SMB_CONNECT callbacks; ids from {1,2,2^31-1,2^31,2^32-1,random}, distinct keys; two operator tasks (sleep, fs/cd) for the last agent are unwrapped from the first hop's check-in reply layer by layer with each hop's own key and SmbRecv's frame rules; then a callback of the last agent is wrapped once per ancestor in scenarios ok / id never issued / id outstanding only for the parent / encrypted under the parent's key / sent by the sibling with the target's id; then (2 of 3 cases) one agent of the chain - the target or one of its ancestors - reconnects under a new directly connected agent and a third task for the last agent must be found, correctly wrapped for the new chain, at the new first hop and not at the old one. Non-trivial: depth >= 2 or an id >= 2^31; distinct = (depth, big id, sibling, scenario)",
 		Gen:   gen, Check: check, Classify: classify,
 		Assumptions: []string{"the Demon's pipe framing and PivotPush wrapping are transcribed from TransportSmb.c / Pivot.c / Command.c"},
 	})
